@@ -266,6 +266,15 @@ def run(ctx):
     consumed(ctx)
     from .c11 import take_rule
     take_rule(ctx)
+    # what was written is read back value for value only if the reading primitives hand over exactly the bytes of each
+    # value, whichever way the (decompressed) block reaches them (shared with C03 / C06 / C11)
+    from . import c11 as c11_
+    c11_.slice_rule(ctx)
+    c11_.varint_rule(ctx)
+    c11_.fixedbuf_rule(ctx)
+    # a value counts in its block however it was handed over, and only when it was taken (shared with C15)
+    from .c15 import failed_rule
+    failed_rule(ctx)
     reset(ctx, enc)
     # block / flush bookkeeping of the writer (shared with C15): a block is emitted iff it holds elements, its
     # count and buffer are reset only after success, every append happens after the pending block was flushed
